@@ -69,17 +69,31 @@ class NGen(qgen.Gen):
         return ('list', [self.str_expr(ctx, 1) for _ in range(r.randint(0, 3))])
 
 
-def gen_case(ctx, g):
+def gen_case(ctx, g, focus=None):
+    """focus: None | 'select' | 'order' | 'agg' | 'update' | 'join' - restricts the query shape (used by the JS legs of C01-C07)"""
     r = ctx.rng
     na = r.randint(1, 3)
     A = g.rect_table(r.randint(0, 6), na, CELLS[:5] if r.random() < 0.6 else CELLS)
     B, join, nb = None, None, None
-    if r.random() < 0.35:
+    if r.random() < (0.35 if focus != 'join' else 1.0) and focus != 'agg':
         nb = r.randint(1, 2)
-        B = g.rect_table(r.randint(0, 4), nb, CELLS[:3])
-        join = g.join({'na': na, 'nb': nb}, nkeys=r.choice([1, 1, 2]))
+        # join cells include digit strings, the empty string and (ragged) missing fields next to NR / bNR key components: a key
+        # encoding that confuses 1 with "1" or null with "" pairs records that are not key-equal
+        bcells = CELLS[:3] if r.random() < 0.6 else ['1', '2', '', 'a']
+        B = g.rect_table(r.randint(0, 4), nb, bcells)
+        if bcells[0] == '1':
+            A = [[r.choice(['1', '2', '', 'a']) if r.random() < 0.6 else x for x in row] for row in A]
+        join = g.join({'na': na, 'nb': nb}, nkeys=r.choice([1, 2, 2]))
         join['lhs'] = [x if x is not None else None for x in join['lhs']]
     shape = r.random()
+    if focus in ('select', 'join'):
+        shape = r.random() * 0.35
+    elif focus == 'order':
+        shape = 0.35 + r.random() * 0.25
+    elif focus == 'agg':
+        shape = 0.6 + r.random() * 0.2
+    elif focus == 'update':
+        shape = 0.8 + r.random() * 0.2
     if join and join['kind'] == 'strict' and shape >= 0.8:
         join['kind'], join['spelling'] = 'left', 'left join'
     cx = {'na': na, 'nb': nb}
@@ -90,8 +104,8 @@ def gen_case(ctx, g):
     qa = {'where': g.bool_expr(cx) if r.random() < 0.4 else None, 'join': join}
     tags = []
     if shape < 0.35:
-        if join is None and r.random() < 0.15:
-            qa['kind'] = ('except', sorted(set(r.randint(0, na - 1) for _ in range(r.randint(1, 2)))))
+        if join is None and r.random() < (0.15 if focus != 'select' else 0.25):
+            qa['kind'] = ('except', [r.randint(0, na - 1) for _ in range(r.randint(1, 3))])      # any order, duplicates allowed
         else:
             qa['kind'] = ('select', g.items(cx) + ([('expr', ('fld', 'b', 0)), ('starb',)] if (join and join['kind'] == 'left' and r.random() < 0.6) else []))
     elif shape < 0.6:
@@ -104,7 +118,8 @@ def gen_case(ctx, g):
         qa['top_spelling'] = r.choice(['top', 'limit'])
     elif shape < 0.8:
         numcol = na
-        A = [row + [r.choice(NUM)] for row in A]
+        pool = NUM if r.random() < 0.7 else ['0', '-1', '-2', '-5', '0', '-3']      # zero as a running extreme / sum among negatives
+        A = [row + [r.choice(pool)] for row in A]
         items = []
         for _ in range(r.randint(1, 3)):
             if r.random() < 0.75:
@@ -171,6 +186,8 @@ def rows_equal(a, b, tol):
 def rel(c, e, g):
     if e is None:
         return True
+    if 'endless' in c.get('tags', ()) and e['pulls'] >= len(c['A_model']):
+        return True           # the model did not reach the bound within its finite prefix: nothing to compare
     if not isinstance(g, dict) or 'rows' not in g:
         return False
     if not g['sources_ok'] or g['alias']:
@@ -180,7 +197,9 @@ def rel(c, e, g):
         # same error class; the rows written before a failure are not observable through query_table
         return g['error'] is not None and g['error'][0] == e['error'][0] and (e['error'][1] == 0 or g['error'][1] == e['error'][1])
     if g['error'] is not None:
-        return False
+        return False          # includes NONTERMINATION on an endless input
+    if 'pulls' in g and g['pulls'] > e['pulls']:
+        return False          # early stop: never more records pulled than the reference
     return rows_equal(exp_rows, g['rows'], 1e-6 if 'approx' in c.get('tags', ()) else 0)
 
 
@@ -188,8 +207,44 @@ def describe(c, e, g):
     return 'rbql-js: query %r over A=%s B=%s: reference model %s, rbql-js %s' % (c['qjs'], json.dumps(c['A']), json.dumps(c['B']), json.dumps(e)[:400], json.dumps(g)[:400])
 
 
+def gen_endless(ctx, g):
+    """bounded query without buffering over an endless input: rbql-js must terminate, pulling no more than the reference"""
+    r = ctx.rng
+    base = g.rect_table(r.randint(1, 4), r.randint(1, 2), ['a', 'b', 'c'])
+    items = [('expr', ('fld', 'a', 0))] + ([('expr', ('NR',))] if r.random() < 0.5 else [])
+    if r.random() < 0.2:
+        items.append(('unnest', ('list', [('lit', 'u'), ('lit', 'v')]), 'UNNEST'))
+    where = ('ne', ('fld', 'a', 0), ('lit', 'a')) if r.random() < 0.4 else None
+    distinct = 1 if (r.random() < 0.4 and not any(i[1] == ('NR',) for i in items if i[0] == 'expr')) else 0
+    qa = {'kind': ('select', items), 'where': where, 'join': None, 'order': None, 'distinct': distinct,
+          'top': r.randint(0, 6), 'top_spelling': r.choice(['top', 'limit'])}
+    c = {'qa': qa, 'A': base, 'B': None, 'tags': ['endless'], 'endless': 5000}
+    c['A_model'] = [base[i % len(base)] for i in range(80)]
+    c['qjs'] = qmodel.Renderer('js', r).query(qa)
+    c['q'] = c['qjs']
+    return c
+
+
+def js_leg(ctx, theorem, focus, n):
+    """the JavaScript leg of an engine property (C01-C07 anchor rbql-js/rbql.js too): language-neutral queries of the given
+    shape through rbql-js against the same reference model"""
+    g = NGen(ctx.rng)
+    cases = [gen_case(ctx, g, focus) for _ in range(n)]
+    if focus == 'order':
+        cases += [gen_endless(ctx, g) for _ in range(max(20, n // 10))]
+    args, model, exp, got = evaluate(ctx, cases)
+    ctx.compare([dict(c, impl='js') for c in cases], exp, got, theorem + ' (rbql-js leg)', rel=rel, describe=describe, shrink=shrink,
+                corrupt=lambda e: {'events': [['W', ['CANARY'], True]], 'pulls': 0, 'error': None})
+    ctx.count(len(cases))
+    ctx.stat('js_leg_cases', len(cases))
+    for c, e in zip(cases, exp):
+        if e is not None and (e['error'] or any(x[0] == 'W' for x in e['events'])):
+            ctx.nontriv(('js', c['qjs'], json.dumps(c['A']), json.dumps(c['B'])))
+    ctx.rule += '; JavaScript leg: %d language-neutral queries of shape %r through rbql-js (rbql.query with a pull-counting iterator) against the same reference model' % (len(cases), focus)
+
+
 def evaluate(ctx, cases):
-    args = [qmodel.enc_run(1, c['qa'], None, c['A'], c['B'], None) for c in cases]
+    args = [qmodel.enc_run(1, c['qa'], None, c.get('A_model') or c['A'], c['B'], None) for c in cases]
     model = lib.run_model(300, args)
     exp = []
     for m in model:
@@ -200,6 +255,8 @@ def evaluate(ctx, cases):
 
 
 def shrink(c, e, g):
+    if 'endless' in c.get('tags', ()):
+        return c, e, g
     cur = c
     budget = 30
     changed = True
@@ -228,7 +285,7 @@ def shrink(c, e, g):
 def run(ctx):
     g = NGen(ctx.rng)
     n = 3000 if ctx.tier == 'quick' else 300000
-    cases = [gen_case(ctx, g) for _ in range(n)]
+    cases = [gen_case(ctx, g) for _ in range(n)] + [gen_endless(ctx, g) for _ in range(n // 15)]
     args, model, exp, got = evaluate(ctx, cases)
     ctx.compare(cases, exp, got, THEOREM, rel=rel, describe=describe, shrink=shrink,
                 corrupt=lambda e: {'events': [['W', ['CANARY'], True]], 'pulls': 0, 'error': None})
@@ -251,6 +308,7 @@ def run(ctx):
 
 
 def replay(ctx, case):
+    case = {k: v for k, v in case.items() if k != 'impl'}
     args, model, exp, got = evaluate(ctx, [case])
     ctx.count()
     ctx.compare([case], exp, got, THEOREM, rel=rel, describe=describe)
